@@ -284,7 +284,8 @@ int read_elf(
     stroffset = file.get_int64();
   }
 
-  char name[128];
+  // Symbols::append() takes names of up to 254 characters.
+  char name[256];
 
   // Need to find .strtab so symbol names can be filled in.
   for (n = 0; n < e_shnum; n++)
@@ -394,7 +395,7 @@ int read_elf(
         // anything, and close to 4GB i would wrap around).
         if ((uint64_t)file.tell() + sym_size > file_length) { break; }
 
-        char name[128];
+        char name[256];
 
         struct _elf_sym elf_sym;
 
